@@ -1544,6 +1544,207 @@ def replay_value_eq(a):
     return a.replay_cases(exe, data, cases)
 
 
+# --------------------------------------------------------------------------------------------------
+# the three clause dispatchers (C01): which evaluator a clause kind is handed to
+# --------------------------------------------------------------------------------------------------
+def clause_dispatch(a):
+    """eval_guard_clause / eval_when_clause / eval_rule_clause: one variant at a time (discriminant fixed), the evaluators arbitrary:
+    the clause is handed to the evaluator of ITS kind, together with the scope given, exactly once, and that evaluator's result is
+    the result"""
+    EV = r"(?:(?:rules::)?eval::)?"
+    table = {
+        "eval_guard_clause": ("GuardClause", {"Clause": ("eval_guard_access_clause", [0]), "NamedRule": ("eval_guard_named_clause", [0]),
+                                              "BlockClause": ("eval_guard_block_clause", [0]),
+                                              "WhenBlock": ("eval_when_condition_block", [0, 1]),
+                                              "ParameterizedNamedRule": ("eval_parameterized_rule_call", [0])}),
+        "eval_when_clause": ("WhenGuardClause", {"Clause": ("eval_guard_access_clause", [0]), "NamedRule": ("eval_guard_named_clause", [0]),
+                                                 "ParameterizedNamedRule": ("eval_parameterized_rule_call", [0])}),
+        "eval_rule_clause": ("RuleClause", {"Clause": ("eval_guard_clause", [0]), "TypeBlock": ("eval_type_block_clause", [0]),
+                                            "WhenBlock": ("eval_when_condition_block", [0, 1])}),
+    }
+    evaluators = sorted({v[0] for _e, t in table.values() for v in t.values()})
+    for fn, (enum, arms) in table.items():
+        variants = enum_variants(a.src, "rules/exprs.rs", enum)
+        n = 0
+        for var in variants:
+            holder = {}
+
+            def prep(ex, var=var):
+                x = ex.opq()
+                ex.proj[("disc", x[1])] = str(variants.index(var))
+                holder["x"] = x
+                return {"_1": x}
+            ex = a.exec(EV + fn, {e: mirexec.m_result_status for e in evaluators}, prep=prep, unroll=1, max_paths=200, deepen=False)
+            x = holder["x"]
+            bad = []
+            for p in ex.paths:
+                cs = [e for e in p.events if e[0] == "call" and e[1] in evaluators]
+                exp = arms.get(var)
+                if p.outcome != "return" or exp is None or len(cs) != 1:
+                    bad.append(pc_term(p.pc))
+                    continue
+                e = cs[0]
+                pay = [av for av in e[2] if av[0] == "opaque"]
+                want = [ex.proj.get((x[1], f"as {var}.{i}")) for i in exp[1]] + [ex.arg_env["_2"]]
+                ok = e[1] == exp[0] and None not in want and pay[-len(want):] == want and p.ret == e[3]
+                bad.append(f"(and {pc_term(p.pc)} (not {'true' if ok else 'false'}))")
+                n += 1
+            c = a.discharge(f"{fn}/dispatch", ex, bad,
+                            f"{fn} on a {enum}::{var}: handed to {arms.get(var, ('?',))[0]} with this clause's own payload and the scope given, "
+                            "exactly once; its result is returned unchanged (one obligation per variant under this name)", witness=False)
+            if c:
+                c["replay"] = replay_clause_kinds(a)
+                c["reproduced"] = c["replay"].get("reproduced", False)
+                a.candidates.append(c)
+        a.fns.append("rules::eval::" + fn)
+
+
+def replay_clause_kinds(a):
+    """every clause kind at every position it can occur in (rule body, rule guard, block body, block guard), PASS / FAIL / SKIP"""
+    exe = a.cli()
+    if not exe:
+        return {"reproduced": False, "note": "native build failed"}
+    data = '{"a": 1, "b": 2, "L": [ {"x": 1}, {"x": 2} ],\n "Resources": {"r1": {"Type": "A::B::C", "v": 1}}}\n'
+    prefix = ("rule yes { a == 1 }\nrule no { a == 2 }\nrule skipped when a == 2 { a == 1 }\n"
+              "rule pr(v) { %v == 1 }\n")
+    cases = [("a == 1", "PASS"), ("a == 2", "FAIL"), ("yes", "PASS"), ("no", "FAIL"), ("skipped", "FAIL"), ("not no", "PASS"), ("not yes", "FAIL"),
+             ("pr(a)", "PASS"), ("pr(b)", "FAIL"),
+             ("L[*] { x >= 1 }", "PASS"), ("L[*] { x == 1 }", "FAIL"), ("L[ x == 9 ] { x == 1 }", "SKIP"),
+             ("when a == 1 { b == 2 }", "PASS"), ("when a == 1 { b == 3 }", "FAIL"), ("when a == 2 { b == 3 }", "SKIP"),
+             ("when yes { b == 2 }", "PASS"), ("when no { b == 3 }", "SKIP"), ("when pr(a) { b == 3 }", "FAIL"), ("when pr(b) { b == 3 }", "SKIP"),
+             ("A::B::C { v == 1 }", "PASS"), ("A::B::C { v == 2 }", "FAIL"), ("A::B::D { v == 2 }", "SKIP"),
+             ("A::B::C when a == 1 { v == 2 }", "FAIL"), ("A::B::C when a == 2 { v == 2 }", "SKIP"), ("A::B::C when yes { v == 1 }", "PASS"),
+             ("L[*] { pr(x) }", "FAIL"), ("some L[*] { pr(x) }", "PASS"),
+             ("L[*] { when x == 1 { x == 1 } }", "PASS"), ("L[*] { when x == 1 { x == 2 } }", "FAIL"),
+             ("L[*] { L2[*] { y == 1 } }", "FAIL"), ("when a == 1 { when b == 2 { a == 2 } }", "FAIL"), ("when a == 1 { when b == 3 { a == 2 } }", "SKIP")]
+    return a.replay_cases(exe, data, cases, prefix=prefix)
+
+
+# --------------------------------------------------------------------------------------------------
+# resolve_function (C18 / C15): how the arguments of a built-in call are obtained and what becomes of its results
+# --------------------------------------------------------------------------------------------------
+def function_args(a):
+    """resolve_function and its per-argument closure, the callees (query, the built-in itself, the recursive call) arbitrary"""
+    LV = enum_variants(a.src, "rules/exprs.rs", "LetValue")
+    FE = struct_fields(a.src, "rules/exprs.rs", "FunctionExpr")
+    AQ = struct_fields(a.src, "rules/exprs.rs", "AccessQuery")
+    RF = r"(?:(?:rules::)?eval_context::)?resolve_function"
+    bad_all = []
+    for var in LV:
+        holder = {}
+
+        def prep(ex, var=var):
+            x = ex.opq()
+            ex.proj[("disc", x[1])] = str(LV.index(var))
+            holder["x"] = x
+            return {"_3": x}
+        ex = a.exec(RF + r"::\{closure#0\}", {"query": m_result_opq, "resolve_function": m_result_opq,
+                                               "box_assume_init_into_vec_unsafe": mirexec.m_vec_from_array, "new": mirexec.m_identity},
+                    log=("push",), prep=prep, unroll=1, max_paths=200, deepen=False)
+        x, env, acc = holder["x"], ex.arg_env["_1"], ex.arg_env["_2"]
+        resolver = ex.proj.get((env[1], ".0"))
+        bad = []
+        for p in ex.paths:
+            r = p.ret
+            pushes = [e for e in calls(p, "push") if len(e[2]) == 2]
+            qs, rfs = calls(p, "query"), calls(p, "resolve_function")
+            if p.outcome != "return" or not r or r[0] != "enum" or r[1] != "Result" or len(pushes) > 1:
+                bad.append(pc_term(p.pc))
+                continue
+            resolver = ex.proj.get((env[1], ".0"))
+            if var == "Value":
+                val = ex.proj.get((x[1], "as Value.0"))
+                ok = (len(pushes) == 1 and not qs and not rfs and pushes[0][2][0] == acc and pushes[0][2][1][0] == "array"
+                      and len(pushes[0][2][1][1]) == 1 and pushes[0][2][1][1][0][0] == "variant" and pushes[0][2][1][1][0][2] == "Literal"
+                      and val is not None and pushes[0][2][1][1][0][3] == [val] and r[3].get("Ok") == acc)
+                good = f"(= {r[2]} 0)" if ok else "false"
+            else:
+                cs = qs if var == "AccessClause" else rfs
+                other = rfs if var == "AccessClause" else qs
+                if len(cs) != 1 or other:
+                    bad.append(pc_term(p.pc))
+                    continue
+                c = cs[0]
+                if var == "AccessClause":
+                    q = ex.proj.get((ex.proj.get((x[1], "as AccessClause.0"), (None, -1))[1], f".{AQ.index('query')}"))
+                    wired = q is not None and c[2][0] == resolver and c[2][1] == q
+                else:
+                    fe = ex.proj.get((x[1], "as FunctionCall.0"), (None, -1))
+                    wired = (c[2][0] == ex.proj.get((fe[1], f".{FE.index('name')}")) and c[2][1] == ex.proj.get((fe[1], f".{FE.index('parameters')}"))
+                             and c[2][2] == resolver and None not in c[2][:3])
+                ctag, cval = c[3][2], c[3][3]["Ok"]
+                if pushes:
+                    ok = wired and pushes[0][2][0] == acc and pushes[0][2][1] == cval and r[3].get("Ok") == acc
+                    good = f"(and (= {ctag} 0) (= {r[2]} 0))" if ok else "false"
+                else:
+                    good = f"(and (= {ctag} 1) (= {r[2]} 1))" if wired else "false"
+            bad.append(f"(and {pc_term(p.pc)} (not {good}))")
+        c = a.discharge("resolve_function/argument", ex, bad,
+                        f"one argument of a built-in call, kind {var}: a literal becomes [Literal(that value)], a query is evaluated in the scope "
+                        "given (its own query), a nested call is resolved recursively with its own name and parameters in the same scope; exactly "
+                        "that result is appended to the argument list, which is returned; a failing callee fails the call", witness=False)
+        if c:
+            c["replay"] = replay_function_args(a)
+            c["reproduced"] = c["replay"].get("reproduced", False)
+            a.candidates.append(c)
+    # --- the call itself
+    ex = a.exec(RF, {"try_fold": m_result_opq, "call": m_result_opq}, log=("flatten", "map", "collect", "filter", "filter_map", "rev", "skip", "take"),
+                unroll=1, max_paths=200, deepen=False)
+    a.fns.append("rules::eval_context::resolve_function (+ its argument closure)")
+    bad = []
+    for p in ex.paths:
+        r = p.ret
+        tf, cl = calls(p, "try_fold"), calls(p, "call")
+        if p.outcome != "return" or not r or r[0] != "enum" or len(tf) != 1 or len(cl) > 1:
+            bad.append(pc_term(p.pc))
+            continue
+        t = tf[0]
+        clos = t[2][2] if len(t[2]) > 2 else None
+        wired = (t[2][0] == ex.arg_env["_2"] and clos is not None and clos[0] == "struct" and list(clos[2].values()) == [ex.arg_env["_3"]])
+        if not cl:
+            good = f"(and (= {t[3][2]} 1) (= {r[2]} 1))" if wired else "false"
+        else:
+            c = cl[0]
+            wired = wired and c[2][0] == ex.arg_env["_1"] and c[2][1] == t[3][3]["Ok"]
+            chain = [(e[1], str(e[5])) for e in p.events if e[0] == "call" and e[1] in ("flatten", "map", "collect", "filter", "filter_map", "rev", "skip", "take")]
+            if r[2] == "0" or (r[3].get("Ok") is not None and "Err" not in r[3]):
+                names = [n for n, _ in chain]
+                ok_chain = (names == ["flatten", "map", "map", "collect"] and "Rc::<" in chain[1][1] and "::new}" in chain[1][1]
+                            and "QueryResult::Resolved}" in chain[2][1].replace("rules::", ""))
+                # the chain starts at the built-in's result and its end is what is returned
+                evs = [e for e in p.events if e[0] == "call" and e[1] in ("flatten", "map", "collect")]
+                linked = (evs and evs[0][2][0] == c[3][3]["Ok"] and all(evs[i + 1][2][0] == evs[i][3] for i in range(len(evs) - 1))
+                          and r[3].get("Ok") == evs[-1][3])
+                good = f"(and (= {t[3][2]} 0) (= {c[3][2]} 0))" if wired and ok_chain and linked else "false"
+            else:
+                good = f"(and (= {t[3][2]} 0) (= {c[3][2]} 1))" if wired else "false"
+        bad.append(f"(and {pc_term(p.pc)} (not {good}))")
+    c = a.discharge("resolve_function/call", ex, bad,
+                    "a built-in call: the arguments are folded from the call's own parameter list in order (std try_fold) in the scope given; the "
+                    "function called is the one named, on exactly that argument list; of its results the present ones (flatten over Option) are "
+                    "wrapped as Resolved values, in order, nothing filtered or reordered; an error of an argument or of the function fails the call")
+    if c:
+        c["replay"] = replay_function_args(a)
+        c["reproduced"] = c["replay"].get("reproduced", False)
+        a.candidates.append(c)
+
+
+def replay_function_args(a):
+    exe = a.cli()
+    if not exe:
+        return {"reproduced": False, "note": "native build failed"}
+    data = '{"s": "Hello", "t": "a,b", "L": ["x", "y"], "n": "12", "E": [], "names": ["ab", "cd"], "d": "-"}\n'
+    prefix = ("let up = to_upper(s)\nlet lo = to_lower(to_upper(s))\nlet j = join(L[*], \",\")\nlet jd = join(L[*], d)\nlet c = count(L[*])\nlet ce = count(E[*])\n"
+              "let num = parse_int(n)\nlet sub = substring(s, 0, 2)\nlet ups = to_upper(names[*])\n"
+              "let lit = \"Hello\"\nlet cl = count(%lit)\nlet upl = to_upper(%lit)\nlet L2 = L[*]\nlet jl = join(%L2, \",\")\nlet ju = join(to_upper(names[*]), \"-\")\n")
+    cases = [("%up == \"HELLO\"", "PASS"), ("%lo == \"hello\"", "PASS"), ("%j == \"x,y\"", "PASS"), ("%jd == \"x-y\"", "PASS"), ("%c == 2", "PASS"),
+             ("%ce == 0", "PASS"), ("%num == 12", "PASS"), ("%sub == \"He\"", "PASS"),
+             ("%ups in [\"AB\", \"CD\"]", "PASS"), ("some %ups == \"AB\"", "PASS"), ("some %ups == \"CD\"", "PASS"), ("%ups == \"AB\"", "FAIL"), ("some %ups == \"ab\"", "FAIL"), ("%cl == 1", "PASS"), ("%upl == \"HELLO\"", "PASS"),
+             ("%jl == \"x,y\"", "PASS"), ("%ju == \"AB-CD\"", "PASS"), ("%ju == \"CD-AB\"", "FAIL"), ("%up == \"Hello\"", "FAIL"), ("%c == 3", "FAIL"), ("%sub == \"el\"", "FAIL"),
+             ("s == to_lower(\"HELLO\")", "FAIL"), ("s == to_upper(\"hello\")", "FAIL"), ("%up == to_upper(\"hello\")", "PASS")]
+    return a.replay_cases(exe, data, cases, prefix=prefix)
+
+
 def join_sequence(a):
     """join(args, delimiter): what is appended to the result, in which order"""
     QR = enum_variants(a.src, "rules/mod.rs", "QueryResult")
@@ -2075,9 +2276,10 @@ def gac_comparator_pair(a):
 
 
 SITES = {
-    "C01": [guard_block, type_block, binary_operation, operator_dispatch, match_value, common_operator, contained_in, eq_operation, in_operation, list_map_equality, value_partial_eq, flip_listin, unary_empty_on_expr, flip_queryin, gac_comparator_pair],
+    "C01": [guard_block, type_block, binary_operation, operator_dispatch, match_value, common_operator, contained_in, eq_operation, in_operation, list_map_equality, value_partial_eq, flip_listin, unary_empty_on_expr, flip_queryin, gac_comparator_pair, clause_dispatch, function_args],
     "C02": [guard_block, type_block, record_tracker, unary_empty_on_expr],
     "C03": [flip_closure, negated_compare_wrapper, parser_clause_wiring, flip_listin, unary_empty_on_expr, flip_queryin, gac_comparator_pair],
     "C13": [flip_closure, operator_dispatch, binary_operation, match_value, common_operator, contained_in, eq_operation, in_operation, list_map_equality, value_partial_eq, flip_listin, flip_queryin],
-    "C18": [function_dispatch, elementwise, join_sequence],
+    "C18": [function_dispatch, elementwise, join_sequence, function_args],
+    "C15": [function_args],
 }
